@@ -121,6 +121,7 @@ def oracle_da(cap, lines):
             if _ret(l) != str(a[args[0]]): return "[%d] = %s, expected %d" % (args[0], _ret(l), a[args[0]])
         elif name == "clear": a = []
         elif name in ("addall", "addall2"): a += args
+        elif name in ("selfassign", "copyback", "copyctor"): pass            # copies of the array are the array
         elif name != "init": continue
         if "DISAGREE" in l: return "two ways of reading the array disagree: %s" % l
         if d.get("iter") != ",".join(map(str, a)): return "after '%s' iteration yields %s, expected %s" % (" ".join(t[:2]), d.get("iter"), a)
